@@ -7,13 +7,6 @@ import Simpleline.Lemmas.ShapeStepProof
 
 namespace Simpleline
 
-/-- loop-control instructions: the frames of `run()` / `_mainloop` / `_process_signal`; everything
-else is (part of) the body of a handler or of the start-up code -/
-def Instr.isLC : Instr → Bool
-  | .apprun | .catchExit | .quitCb | .mainCheck _ | .restoreRun | .loopCheck | .getDispatch
-  | .processSignal _ | .dispatch .. | .catchHandler | .kill _ => true
-  | _ => false
-
 /-- what may stand directly behind an instruction -/
 inductive FClass where
   | none      -- nothing: `apprun`, `quitCb` are last
